@@ -1,6 +1,6 @@
 //! Plain-data model of a buffer inside the representable domain of one binary art format, its generator and the
 //! builder that turns it into an engine `Buffer`.
-use icy_engine::{AttributedChar, BitFont, Buffer, Color, IceMode, Palette, SauceData, SauceString, SaveOptions, TextAttribute};
+use icy_engine::{AttributedChar, BitFont, Buffer, Color, IceMode, Palette, SauceData, SauceDataType, SauceFileType, SauceString, SaveOptions, TextAttribute};
 use icyv::proptest::prelude::*;
 use serde::{Deserialize, Serialize};
 
@@ -45,6 +45,10 @@ pub struct Cell {
     pub bg: u8,
     pub blink: bool,
     pub page: u8,
+    /// how a bright foreground (fg 8..=15) is STORED: 0 = as fg 8..=15 (what `from_u8` builds), 1 = fg-8 with the
+    /// BOLD flag (what the ANSI parser builds), 2 = fg 8..=15 and BOLD. All three show the same colour.
+    #[serde(default)]
+    pub rep: u8,
 }
 
 #[derive(Clone, Copy, Debug, Hash, PartialEq, Eq, Serialize, Deserialize)]
@@ -82,7 +86,33 @@ pub struct Model {
     /// storage shape applied after `build` (icyv::shape::perturb; 0 = as built); never changes the picture
     #[serde(default)]
     pub shape: u8,
+    /// font-table slot of each model font (page i of the cells lives in slot `slots[i]`); empty = slots 0, 1.
+    /// Slot 0 always holds a font (the built-in one when no model font sits there).
+    #[serde(default)]
+    pub slots: Vec<u8>,
+    /// slots that hold fonts no cell uses
+    #[serde(default)]
+    pub extra_fonts: Vec<u8>,
+    /// a SAUCE record attached to the document whose technical fields are independent of the buffer (stale: loaded
+    /// with another file, then edited) — attached whether or not a SAUCE trailer is written
+    #[serde(default)]
+    pub rec: Option<Rec>,
 }
+
+#[derive(Clone, Debug, Hash, PartialEq, Eq, Serialize, Deserialize)]
+pub struct Rec {
+    pub use_ice: bool,
+    pub letter_spacing: bool,
+    pub aspect_ratio: bool,
+    /// 0 = none, 1.. = FONT_NAMES[font - 1]
+    pub font: u8,
+    pub w: u16,
+    pub h: u16,
+    /// 0 Undefined, 1 Ansi, 2 Bin, 3 XBin, 4 TundraDraw, 5 Ascii (data type + file type of the record)
+    pub kind: u8,
+}
+
+pub const FONT_NAMES: [&str; 4] = ["IBM VGA", "IBM VGA50", "Amiga Topaz 1", "no such font"];
 
 /// which open known findings the generators steer away from (see main.rs `STEER_IDS`)
 #[derive(Clone, Copy, Debug, Default)]
@@ -179,6 +209,11 @@ impl Model {
         v
     }
 
+    /// font-table slot of model font `page`
+    pub fn slot(&self, page: u8) -> usize {
+        self.slots.get(page as usize).map(|s| *s as usize).unwrap_or(page as usize)
+    }
+
     pub fn is_default_palette(&self) -> bool {
         match self.fmt {
             Fmt::Tnd => false,
@@ -252,6 +287,21 @@ impl Model {
         if self.fmt != Fmt::Tnd && self.palette.iter().any(|c| c.iter().any(|v| *v > 63)) {
             return bad("palette component > 63");
         }
+        if !self.slots.is_empty() && self.slots.len() != self.fonts.len() {
+            return bad("one slot per font");
+        }
+        let used_slots: Vec<usize> = (0..self.fonts.len() as u8).map(|p| self.slot(p)).collect();
+        if used_slots.iter().any(|s| *s > 42) || (used_slots.len() == 2 && used_slots[0] == used_slots[1]) {
+            return bad("font slots");
+        }
+        if self.extra_fonts.iter().any(|s| *s == 0 || *s > 42 || used_slots.contains(&(*s as usize))) {
+            return bad("extra font slots");
+        }
+        if let Some(r) = &self.rec {
+            if r.font as usize > FONT_NAMES.len() || r.kind > 5 {
+                return bad("record fields");
+            }
+        }
         let two = self.fonts.len() == 2;
         for (_, c) in &self.runs {
             let ncol = if self.fmt == Fmt::Tnd { self.palette.len() as u8 } else { 16 };
@@ -269,6 +319,9 @@ impl Model {
             }
             if two && c.fg > 7 {
                 return bad("high foreground in 512-character mode");
+            }
+            if c.rep > 2 || (c.rep != 0 && !(8..=15).contains(&c.fg)) {
+                return bad("bold representation needs a bright foreground");
             }
         }
         None
@@ -290,10 +343,16 @@ pub fn make_font(m: &Model, page: usize) -> BitFont {
     }
 }
 
-pub fn attr_of(c: &Cell) -> TextAttribute {
-    let mut a = TextAttribute::new(c.fg as u32, c.bg as u32);
+pub fn attr_of(m: &Model, c: &Cell) -> TextAttribute {
+    let (fg, bold) = match c.rep {
+        1 => (c.fg - 8, true),
+        2 => (c.fg, true),
+        _ => (c.fg, false),
+    };
+    let mut a = TextAttribute::new(fg as u32, c.bg as u32);
+    a.set_is_bold(bold);
     a.set_is_blinking(c.blink);
-    a.set_font_page(c.page as usize);
+    a.set_font_page(m.slot(c.page));
     a
 }
 
@@ -306,18 +365,40 @@ pub fn build(m: &Model, cells: &[Cell]) -> Buffer {
         let cols: Vec<Color> = m.palette8().iter().map(|c| Color::new(c[0], c[1], c[2])).collect();
         buf.palette = Palette::from_slice(&cols);
     }
-    if m.fonts != [FontM::Default] {
+    if m.fonts != [FontM::Default] || !m.slots.is_empty() || !m.extra_fonts.is_empty() {
         buf.clear_font_table();
+        // slot 0 always holds a font (Buffer::new puts the built-in one there; writers read its name and size)
+        buf.set_font(0, BitFont::default());
         for p in 0..m.fonts.len() {
-            buf.set_font(p, make_font(m, p));
+            buf.set_font(m.slot(p as u8), make_font(m, p));
+        }
+        for s in &m.extra_fonts {
+            buf.set_font(*s as usize, BitFont::create_8(format!("icyv unused {s}"), 8, 16, &font_bytes(0x4000 + *s as u16, 16)));
         }
     }
     let w = m.w as usize;
     for (i, c) in cells.iter().enumerate() {
-        buf.layers[0].set_char(((i % w) as i32, (i / w) as i32), AttributedChar::new(c.ch as char, attr_of(c)));
+        buf.layers[0].set_char(((i % w) as i32, (i / w) as i32), AttributedChar::new(c.ch as char, attr_of(m, c)));
     }
-    if m.sauce && m.sauce_meta != 0 {
-        buf.set_sauce(Some(sauce_meta(m.sauce_meta)), false);
+    if (m.sauce && m.sauce_meta != 0) || m.rec.is_some() {
+        let mut s = sauce_meta(if m.sauce { m.sauce_meta } else { 0 });
+        if let Some(r) = &m.rec {
+            s.use_ice = r.use_ice;
+            s.use_letter_spacing = r.letter_spacing;
+            s.use_aspect_ratio = r.aspect_ratio;
+            s.font_opt = if r.font == 0 { None } else { Some(FONT_NAMES[r.font as usize - 1].to_string()) };
+            s.buffer_size = icy_engine::Size::new(r.w as i32, r.h as i32);
+            (s.data_type, s.sauce_file_type) = match r.kind {
+                1 => (SauceDataType::Character, SauceFileType::Ansi),
+                2 => (SauceDataType::BinaryText, SauceFileType::Bin),
+                3 => (SauceDataType::XBin, SauceFileType::XBin),
+                4 => (SauceDataType::Character, SauceFileType::TundraDraw),
+                5 => (SauceDataType::Character, SauceFileType::Ascii),
+                _ => (SauceDataType::Undefined, SauceFileType::Undefined),
+            };
+        }
+        // resize_to_sauce = false: attaching a record does not touch the document
+        buf.set_sauce(Some(s), false);
     }
     buf
 }
@@ -360,7 +441,8 @@ fn raw_cell() -> impl Strategy<Value = Cell> {
         1 => b'A'..=b'C',
     ];
     // fg/bg are drawn from 0..32 and scaled onto the palette size in `finish`
-    (ch, 0u8..32, 0u8..32, any::<bool>(), 0u8..2).prop_map(|(ch, fg, bg, blink, page)| Cell { ch, fg, bg, blink, page })
+    let rep = prop_oneof![6 => Just(0u8), 2 => Just(1u8), 1 => Just(2u8)];
+    (ch, 0u8..32, 0u8..32, any::<bool>(), 0u8..2, rep).prop_map(|(ch, fg, bg, blink, page, rep)| Cell { ch, fg, bg, blink, page, rep })
 }
 
 fn raw_runs(max: usize) -> impl Strategy<Value = Vec<(u8, Cell)>> {
@@ -418,6 +500,9 @@ fn finish(mut m: Model, no_ctrl_1_6: bool) -> Model {
         } else {
             c.page = 0;
         }
+        if !(8..=15).contains(&c.fg) {
+            c.rep = 0;
+        }
         if no_ctrl_1_6 && (1..=6).contains(&c.ch) {
             c.ch += 0x30;
         }
@@ -442,10 +527,31 @@ fn finish(mut m: Model, no_ctrl_1_6: bool) -> Model {
 fn with_extras(base: BoxedStrategy<Model>, shapes: bool) -> BoxedStrategy<Model> {
     let meta = prop_oneof![3 => Just(0u8), 2 => Just(1u8), 2 => Just(2u8), 1 => Just(3u8), 1 => Just(4u8), 1 => Just(5u8)];
     let shape = if shapes { prop_oneof![6 => Just(0u8), 4 => 1u8..icyv::shape::CODES].boxed() } else { Just(0u8).boxed() };
-    (base, meta, shape)
-        .prop_map(|(mut m, meta, shape)| {
+    // font slot placement: any two distinct slots 0..=42, in either order; plus up to two slots with unused fonts
+    let slots = prop_oneof![5 => Just(None), 2 => (0u8..=4, 0u8..=4).prop_map(Some), 3 => (0u8..=42, 0u8..=42).prop_map(Some)];
+    let extra = prop_oneof![3 => Just(Vec::new()), 2 => prop::collection::vec(1u8..=42, 1..=2)];
+    // stale attached record: every technical field drawn independently of the buffer
+    let rec = prop_oneof![
+        1 => Just(None),
+        1 => (any::<bool>(), any::<bool>(), any::<bool>(), 0u8..=4, prop_oneof![Just(0u16), Just(80u16), 1u16..=300], prop_oneof![Just(0u16), Just(25u16), 1u16..=300], 0u8..=5)
+            .prop_map(|(use_ice, letter_spacing, aspect_ratio, font, w, h, kind)| Some(Rec { use_ice, letter_spacing, aspect_ratio, font, w, h, kind })),
+    ];
+    (base, meta, shape, slots, extra, rec)
+        .prop_map(|(mut m, meta, shape, slots, extra, rec)| {
             m.sauce_meta = if m.sauce { meta } else { 0 };
             m.shape = shape;
+            if let Some((a, b)) = slots {
+                let b = if a == b { (b + 1) % 43 } else { b };
+                m.slots = [a, b][..m.fonts.len()].to_vec();
+            }
+            let used: Vec<usize> = (0..m.fonts.len() as u8).map(|p| m.slot(p)).collect();
+            let mut ex: Vec<u8> = extra.into_iter().filter(|s| !used.contains(&(*s as usize))).collect();
+            ex.dedup();
+            if ex.len() == 2 && ex[0] == ex[1] {
+                ex.pop();
+            }
+            m.extra_fonts = ex;
+            m.rec = rec;
             m
         })
         .boxed()
@@ -476,7 +582,7 @@ fn xb_inner(small: bool) -> BoxedStrategy<Model> {
     let fonts = prop_oneof![3 => font1().prop_map(|f| vec![f]), 2 => (font1(), any::<u16>()).prop_map(|(a, s)| vec![a, FontM::Custom(s)])];
     (size, any::<bool>(), pal6(), font_h, fonts, raw_runs(if small { 40 } else { 120 }), any::<bool>(), any::<bool>())
         .prop_map(|((w, h), ice, palette, font_h, fonts, runs, compress, sauce)| {
-            finish(Model { fmt: Fmt::Xb, w, h, ice, palette, font_h, fonts, runs, compress, sauce, steered: false, sauce_meta: 0, shape: 0 }, false)
+            finish(Model { fmt: Fmt::Xb, w, h, ice, palette, font_h, fonts, runs, compress, sauce, steered: false, sauce_meta: 0, shape: 0, slots: Vec::new(), extra_fonts: Vec::new(), rec: None }, false)
         })
         .boxed()
 }
@@ -495,7 +601,7 @@ fn bin_inner(small: bool) -> BoxedStrategy<Model> {
     (width, height, any::<bool>(), raw_runs(if small { 40 } else { 120 }))
         .prop_map(|(w, h, ice, runs)| {
             finish(
-                Model { fmt: Fmt::Bin, w, h, ice, palette: DEFPAL6.to_vec(), font_h: 16, fonts: vec![FontM::Default], runs, compress: false, sauce: true, steered: false, sauce_meta: 0, shape: 0 },
+                Model { fmt: Fmt::Bin, w, h, ice, palette: DEFPAL6.to_vec(), font_h: 16, fonts: vec![FontM::Default], runs, compress: false, sauce: true, steered: false, sauce_meta: 0, shape: 0, slots: Vec::new(), extra_fonts: Vec::new(), rec: None },
                 false,
             )
         })
@@ -510,7 +616,7 @@ fn adf_inner(small: bool) -> BoxedStrategy<Model> {
     let height = if small { (1u16..=30).boxed() } else { heights() };
     (height, pal6(), font1(), raw_runs(if small { 40 } else { 120 }), any::<bool>())
         .prop_map(|(h, palette, font, runs, sauce)| {
-            finish(Model { fmt: Fmt::Adf, w: 80, h, ice: true, palette, font_h: 16, fonts: vec![font], runs, compress: false, sauce, steered: false, sauce_meta: 0, shape: 0 }, false)
+            finish(Model { fmt: Fmt::Adf, w: 80, h, ice: true, palette, font_h: 16, fonts: vec![font], runs, compress: false, sauce, steered: false, sauce_meta: 0, shape: 0, slots: Vec::new(), extra_fonts: Vec::new(), rec: None }, false)
         })
         .boxed()
 }
@@ -523,7 +629,7 @@ fn idf_inner(small: bool) -> BoxedStrategy<Model> {
     let height = if small { (1u16..=30).boxed() } else { heights() };
     let width = prop_oneof![3 => Just(80u16), 3 => 1u16..=80, 1 => Just(1u16)];
     // IDF cells that collide with the run marker (character 1, attribute 0) get extra weight
-    let marker = Cell { ch: 1, fg: 0, bg: 0, blink: false, page: 0 };
+    let marker = Cell { ch: 1, fg: 0, bg: 0, blink: false, page: 0, rep: 0 };
     let runs = (raw_runs(if small { 40 } else { 120 }), prop::collection::vec((any::<u16>(), 1u8..=5), 0..=3)).prop_map(move |(mut r, ins)| {
         for (at, len) in ins {
             let i = icyv::util::pick(at, r.len() + 1);
@@ -534,7 +640,7 @@ fn idf_inner(small: bool) -> BoxedStrategy<Model> {
     (width, height, pal6(), font1(), runs, any::<bool>(), any::<bool>())
         .prop_map(|(w, h, palette, font, runs, compress, sauce)| {
             // `finish` rescales colours 0..32 -> 0..16; the inserted marker cells are already final (0 stays 0)
-            finish(Model { fmt: Fmt::Idf, w, h, ice: true, palette, font_h: 16, fonts: vec![font], runs, compress, sauce, steered: false, sauce_meta: 0, shape: 0 }, false)
+            finish(Model { fmt: Fmt::Idf, w, h, ice: true, palette, font_h: 16, fonts: vec![font], runs, compress, sauce, steered: false, sauce_meta: 0, shape: 0, slots: Vec::new(), extra_fonts: Vec::new(), rec: None }, false)
         })
         .boxed()
 }
@@ -559,7 +665,7 @@ fn tnd_inner(small: bool, st: Steer) -> BoxedStrategy<Model> {
     // characters 1..=6 collide with Tundra's command bytes; two thirds of the cases stay clear of them anyway
     (size, pal24(), raw_runs(if small { 40 } else { 120 }), 0u8..3)
         .prop_map(move |((w, h), palette, runs, ctl)| {
-            let raw = Model { fmt: Fmt::Tnd, w, h, ice: true, palette, font_h: 16, fonts: vec![FontM::Default], runs, compress: false, sauce: true, steered: false, sauce_meta: 0, shape: 0 };
+            let raw = Model { fmt: Fmt::Tnd, w, h, ice: true, palette, font_h: 16, fonts: vec![FontM::Default], runs, compress: false, sauce: true, steered: false, sauce_meta: 0, shape: 0, slots: Vec::new(), extra_fonts: Vec::new(), rec: None };
             let mut steered = false;
             let mut avoid_ctrl = ctl != 0;
             if st.tnd_ctrl && !avoid_ctrl {
@@ -621,6 +727,7 @@ pub fn simpler(m: &Model) -> Vec<Model> {
     if m.fonts.len() == 2 {
         let mut c = m.clone();
         c.fonts.truncate(1);
+        c.slots.truncate(1);
         for r in &mut c.runs {
             r.1.page = 0;
         }
@@ -637,6 +744,40 @@ pub fn simpler(m: &Model) -> Vec<Model> {
     }
     if m.shape != 0 {
         push(Model { shape: 0, ..m.clone() });
+    }
+    if m.rec.is_some() {
+        push(Model { rec: None, ..m.clone() });
+    }
+    if let Some(r) = &m.rec {
+        let plain = Rec { use_ice: false, letter_spacing: false, aspect_ratio: false, font: 0, w: 0, h: 0, kind: 0 };
+        for cand in [
+            Rec { use_ice: r.use_ice, ..plain.clone() },
+            Rec { letter_spacing: false, ..r.clone() },
+            Rec { aspect_ratio: false, ..r.clone() },
+            Rec { font: 0, ..r.clone() },
+            Rec { w: 0, h: 0, ..r.clone() },
+            Rec { kind: 0, ..r.clone() },
+            Rec { use_ice: false, ..r.clone() },
+        ] {
+            if cand != *r {
+                push(Model { rec: Some(cand), ..m.clone() });
+            }
+        }
+    }
+    if !m.extra_fonts.is_empty() {
+        push(Model { extra_fonts: Vec::new(), ..m.clone() });
+    }
+    if !m.slots.is_empty() {
+        push(Model { slots: Vec::new(), ..m.clone() });
+        let small: Vec<u8> = if m.slots.len() == 2 { if m.slots[0] < m.slots[1] { vec![1, 2] } else { vec![2, 1] } } else { vec![1] };
+        push(Model { slots: small, ..m.clone() });
+    }
+    if m.runs.iter().any(|r| r.1.rep != 0) {
+        let mut c = m.clone();
+        for r in &mut c.runs {
+            r.1.rep = 0;
+        }
+        push(c);
     }
     if m.sauce_meta != 0 {
         push(Model { sauce_meta: 0, ..m.clone() });
@@ -668,6 +809,9 @@ pub fn simpler(m: &Model) -> Vec<Model> {
             }
             if c.blink {
                 cands.push((len, Cell { blink: false, ..c }));
+            }
+            if c.rep != 0 {
+                cands.push((len, Cell { rep: 0, ..c }));
             }
             for cand in cands {
                 let mut r = m.runs.clone();
